@@ -290,8 +290,9 @@ func mustPass(fn *ssa.Function, pred func(ssa.Instruction) bool) bool {
 	return !dfs(fn.Blocks[0])
 }
 
-func edgeDesc(e *callgraph.Edge) string { return fmt.Sprintf("%s → %s", shortFn(e.Caller.Func), shortFn(e.Callee.Func)) }
-
+func edgeDesc(e *callgraph.Edge) string {
+	return fmt.Sprintf("%s → %s", shortFn(e.Caller.Func), shortFn(e.Callee.Func))
+}
 
 func stripChangeType(v ssa.Value) ssa.Value {
 	for {
